@@ -74,8 +74,20 @@ func (t *TypedefSpec) Link(scope Scope) (TypeSpec, error) {
 		return t, nil
 	}
 
+	// Linking the target may lead back to this typedef (a struct that the
+	// target reaches may have a field of this type). Make the target
+	// reachable from the typedef before it is linked so that the root of
+	// the typedef can be determined at that point: a default value of that
+	// field is cast to the root type while the target is still linking.
+	target := t.Target
+	if ref, ok := target.(typeSpecReference); ok {
+		if resolved, err := ref.lookup(scope); err == nil {
+			t.Target = resolved
+		}
+	}
+
 	var err error
-	t.Target, err = t.Target.Link(scope)
+	t.Target, err = target.Link(scope)
 	if err == nil {
 		t.root = RootTypeSpec(t.Target)
 	}
